@@ -205,17 +205,30 @@ fn walk(words: &[u8], packet_lens: &[u32]) -> Result<Vec<u64>, Fail> {
         if n == 0 {
             break;
         }
-        let mut payload: Vec<u8> = Vec::with_capacity(n * 10 + 16);
+        // 1 packet in 3 (of at least two words) in data format 0: every word in a 16-byte slot, six filler bytes
+        // of 0x00 behind it, no trailing padding - one link may change its data format from packet to packet
+        let fmt0 = n >= 2 && hrng.chance(1, 3);
+        let stride: u64 = if fmt0 { 16 } else { 10 };
+        let mut payload: Vec<u8> = Vec::with_capacity(n * 16 + 16);
         for w in &all[wi..wi + n] {
             payload.extend_from_slice(w);
+            if fmt0 {
+                payload.extend_from_slice(&[0u8; 6]);
+            }
         }
-        let last_id_ff = payload.last() == Some(&0xFF);
-        let pad = if hrng.chance(1, 2) { (16 - payload.len() % 16) % 16 } else { hrng.usize_below(16) };
+        let last_id_ff = !fmt0 && payload.last() == Some(&0xFF);
+        let pad = if fmt0 {
+            0
+        } else if hrng.chance(1, 2) {
+            (16 - payload.len() % 16) % 16
+        } else {
+            hrng.usize_below(16)
+        };
         payload.extend(std::iter::repeat(0xFFu8).take(pad));
         // Not judged (followed blindly): a packet whose last word has the ID byte 0xFF (it merges with the
         // padding) and a packet whose bytes 10..15 are all zero (the layout is recognised from them: known
         // finding of C07)
-        if last_id_ff || (payload.len() >= 16 && payload[10..16].iter().all(|&b| b == 0)) {
+        if last_id_ff || (!fmt0 && payload.len() >= 16 && payload[10..16].iter().all(|&b| b == 0)) {
             let mut hdr = rdh.clone();
             hdr.memory_size = (64 + payload.len()) as u16;
             hdr.offset_next = hdr.memory_size;
@@ -237,6 +250,7 @@ fn walk(words: &[u8], packet_lens: &[u32]) -> Result<Vec<u64>, Fail> {
             continue;
         }
         let mut hdr = rdh.clone();
+        hdr.data_format = if fmt0 { 0 } else { 2 };
         hdr.memory_size = (64 + payload.len()) as u16;
         hdr.offset_next = hdr.memory_size;
         let bytes = hdr.to_bytes();
@@ -250,7 +264,7 @@ fn walk(words: &[u8], packet_lens: &[u32]) -> Result<Vec<u64>, Fail> {
         }
         for k in 0..n {
             let w = all[wi];
-            let word_off = pos + 64 + (k as u64) * 10;
+            let word_off = pos + 64 + (k as u64) * stride;
             let step = diagram_step(model, w);
             let _ = fsm_shadow.advance(w);
             let want_prefix = format!("{:#X}: ", word_off);
